@@ -344,6 +344,7 @@ def run_connection(case):
                 if sim.torn:
                     break
                 executed += 1
+                LOG.append(('step', executed - 1))      # harness marker (not an observable; dropped from the Coq term)
                 if st[0] == 'first':
                     for seg in st[3]:
                         sim.client.feed(seg)
@@ -506,7 +507,7 @@ def _coq_run_term(case, out):
     return 'CRun %s %s %s %s %s %s %s' % (
         cb(out['agent']), C.coq_list(cb(x) for x in (case.get('disable') or [])), cob(case.get('basic_auth')),
         C.coq_list(coq_table(t) for t in case['tables']), coq_ctx(c0),
-        C.coq_list(coq_step(s) for s in case['steps'][:out['executed']]), C.coq_list(coq_event(e) for e in out['log']))
+        C.coq_list(coq_step(s) for s in case['steps'][:out['executed']]), C.coq_list(coq_event(e) for e in out['log'] if e[0] != 'step'))
 
 
 def coq_order_term(case, out):
